@@ -60,7 +60,8 @@ with ThreadPoolExecutor(j) as ex:
             src = [a for a in args if os.path.basename(a.rstrip("/")) == r["id"]][0]
             dst = os.path.join(HERE, os.environ.get("NEUTRAL_DEST", "neutral"), r["id"])
             os.makedirs(dst, exist_ok=True)
-            shutil.copy(os.path.join(src, "patch.diff"), os.path.join(dst, "patch.diff"))
+            if os.path.realpath(src) != os.path.realpath(dst):
+                shutil.copy(os.path.join(src, "patch.diff"), os.path.join(dst, "patch.diff"))
             m = json.load(open(os.path.join(src, "meta.json")))
             m["static_verdict"] = r["status"]
             m["static_props"] = r.get("props", [])
